@@ -179,4 +179,43 @@ def reduce(t, pattern, reduction, **sizes):
 
 
 def einsum(*args):
-    raise Unsupported("einops.einsum")
+    """einops.einsum(t1, ..., pattern) with space separated axis names (no ellipsis / groups)"""
+    import itertools
+
+    from .scalar import s_add, s_mul
+
+    pattern = args[-1]
+    ops = list(args[:-1])
+    lhs, rhs = pattern.split("->")
+    ins = [x.split() for x in lhs.split(",")]
+    out = rhs.split()
+    if any("..." in x or "(" in " ".join(x) for x in ins):
+        raise Unsupported("einops.einsum pattern " + pattern)
+    dims = {}
+    for names, t in zip(ins, ops):
+        assert len(names) == t.a.ndim, (names, t.shape)
+        for nme, sz in zip(names, t.a.shape):
+            assert dims.setdefault(nme, sz) == sz
+    red = [nme for nme in dims if nme not in out]
+    res = np.empty([dims[o] for o in out], dtype=object)
+    dt = ops[0].dtype
+    for t in ops[1:]:
+        dt = T.promote(dt, t.dtype)
+    for pos in np.ndindex(*res.shape):
+        env = dict(zip(out, pos))
+        acc = 0.0 if T._isf(dt) else 0
+        for rpos in itertools.product(*[range(dims[r]) for r in red]):
+            env.update(zip(red, rpos))
+            term = None
+            for names, t in zip(ins, ops):
+                v = t.a[tuple(env[nme] for nme in names)]
+                term = v if term is None else s_mul(term, v)
+            acc = s_add(acc, term)
+        res[pos] = acc
+    return Tensor(res, dt)
+
+
+def torch_einsum(pattern, *ops):
+    lhs, rhs = pattern.replace(" ", "").split("->")
+    spaced = ", ".join(" ".join(x) for x in lhs.split(",")) + " -> " + " ".join(rhs)
+    return einsum(*ops, spaced)
